@@ -368,3 +368,29 @@ class CallGraph:
                             break
                     out.append(comp)
         return out
+
+
+def follow_delegation(repo: Repo, fn, max_hops: int = 2):
+    """When `fn` only hands its work on - its body (docstring aside) is `return <recv>.<m>(...)`, possibly after plain local bindings -
+    and `<m>` names exactly one method / function of the package, return that Function (transitively, a few hops); else `fn` itself.
+    Lets a rule that reads the body of `A.f` keep reading it after the body moved to `B.g` and `A.f` became `return self.b.g(...)`."""
+    import ast as _ast
+
+    cur = fn
+    for _ in range(max_hops):
+        body = [s for s in cur.node.body if not (isinstance(s, _ast.Expr) and isinstance(s.value, _ast.Constant))]
+        if not body or not isinstance(body[-1], _ast.Return) or body[-1].value is None or len(body) > 3:
+            return cur
+        if not all(isinstance(s, (_ast.Assign, _ast.AnnAssign)) for s in body[:-1]):
+            return cur
+        call = body[-1].value
+        if not isinstance(call, _ast.Call):
+            return cur
+        name = call.func.attr if isinstance(call.func, _ast.Attribute) else call.func.id if isinstance(call.func, _ast.Name) else None
+        if name is None:
+            return cur
+        cands = [f for f in repo.all_functions() if f.name == name and f is not cur and "<locals>" not in f.qualname]
+        if len(cands) != 1:
+            return cur
+        cur = cands[0]
+    return cur
